@@ -97,6 +97,10 @@ Theorem C20_hist_push_length : forall st e, (1 <= hs_limit st)%N ->
 Proof. exact (fun st e H1 H2 => conj (hist_push_length st e H1 H2) (hist_push_entries st e H1 H2)). Qed.
 Print Assumptions C20_hist_push_length.
 
+(** the hypothesis [1 <= limit] cannot be dropped: a limit-0 ring keeps one entry *)
+Example C20_ex_limit0 : forall e, hs_entries (hist_push (mkHStore 0 []) e) = [e].
+Proof. exact ex_limit0. Qed.
+
 (** the store after [ops] equals the store after [ops] with every SUBSCRIBE /
     UNSUBSCRIBE / session removal deleted; the subscription survives, with
     its id, in both runs *)
